@@ -152,7 +152,7 @@ func (fr *Frame) callCommon(st *State, g string, site ssa.Instruction, c *ssa.Ca
 				return fr.staticCall(st, g, site, callee, append([]ssa.Value{mi.X}, c.Args...), full, pos, nil)
 			}
 		}
-		fr.callSiteAsserts(st, g, name, false, args, nil, pos)
+		fr.callSiteAsserts(st, g, name, false, args, nil, pos, sig)
 		if fc := eng.lookupExtern(name, "method"); fc != nil {
 			return fr.applyAssumed(st, g, fc, name, append([]string{recv}, args...), paramTypesWithRecv(recvT, sig), sig, pos, site)
 		}
@@ -169,7 +169,7 @@ func (fr *Frame) callCommon(st *State, g string, site ssa.Instruction, c *ssa.Ca
 	// dynamic call through a function value
 	key := fr.funcValueKey(c.Value)
 	if key != "" {
-		fr.callSiteAsserts(st, g, key, false, args, nil, pos)
+		fr.callSiteAsserts(st, g, key, false, args, nil, pos, sig)
 		if fc := eng.lookupExtern(key, "callback"); fc != nil {
 			return fr.applyAssumed(st, g, fc, key, args, sigParamTypes(sig), sig, pos, site)
 		}
@@ -304,7 +304,7 @@ func (fr *Frame) staticCall(st *State, g string, site ssa.Instruction, callee *s
 	eng := vc.eng
 	sig := callee.Signature
 	cname := canonFunc(callee)
-	fr.callSiteAsserts(st, g, cname, false, args, callee, pos)
+	fr.callSiteAsserts(st, g, cname, false, args, callee, pos, nil)
 	if cname == "sort.Slice" && len(argVals) == 2 {
 		if mc, ok := argVals[1].(*ssa.MakeClosure); ok {
 			if mi, ok := argVals[0].(*ssa.MakeInterface); ok {
@@ -362,7 +362,7 @@ func (fr *Frame) staticCall(st *State, g string, site ssa.Instruction, callee *s
 			cios = append(cios, cio{l, a, pt.Elem()})
 			vc.note("interior pointer argument of %s: copy-in/copy-out through a temporary object", cname)
 		}
-		st2, res = fr.applyContract(st, g, fc, callee, args, pos, site)
+		st2, res = fr.applyContract(st, g, fc, callee, args, pos, site, ci)
 		for _, c := range cios {
 			hv := vc.heapVar(c.t)
 			st2 = fr.store(st2, c.loc, fmt.Sprintf("(select %s %s)", st2.get(hv), c.addr))
@@ -917,7 +917,7 @@ func (fr *Frame) havocPath(st, pre *State, item string, env *Env) *State {
 }
 
 // applyContract: modular call of an in-repo function under contract.
-func (fr *Frame) applyContract(st *State, g string, fc *FuncContract, callee *ssa.Function, args []string, pos token.Pos, site ssa.Instruction) (*State, []string) {
+func (fr *Frame) applyContract(st *State, g string, fc *FuncContract, callee *ssa.Function, args []string, pos token.Pos, site ssa.Instruction, ci *closureInfo) (*State, []string) {
 	vc := fr.vc
 	sig := callee.Signature
 	env := fr.newEnv(st, st)
@@ -927,6 +927,19 @@ func (fr *Frame) applyContract(st *State, g string, fc *FuncContract, callee *ss
 		if i < len(args) {
 			env.names[p.Name()] = TV{term: args[i], typ: p.Type()}
 			ptypes = append(ptypes, p.Type())
+		}
+	}
+	if ci != nil {
+		// direct call of a closure under contract: its captured variables are the caller's cells
+		env.resolve = func(name string, s *State) (TV, bool) {
+			for i, fv := range callee.FreeVars {
+				if fv.Name() == name && i < len(ci.bindings) {
+					if l, ok := ci.frame.locs[ci.bindings[i]]; ok {
+						return TV{term: fr.load(s, l), typ: l.resultType(), loc: l}, true
+					}
+				}
+			}
+			return TV{}, false
 		}
 	}
 	fr.top().callSeq[fc.Name]++
@@ -982,6 +995,21 @@ func (fr *Frame) applyContract(st *State, g string, fc *FuncContract, callee *ss
 		}
 		st = st.havoc(vc.fresh("eff"), names, false, allGhost)
 	}
+	if ci != nil {
+		// captured variables the closure body assigns get arbitrary values
+		wr := closureWrites(callee)
+		for i, b := range ci.bindings {
+			if !wr[i] {
+				continue
+			}
+			if l, ok := ci.frame.locs[b]; ok {
+				f := vc.freshConst("capt", vc.sortOf(l.resultType()))
+				vc.assume(vc.rangeFact(f, l.resultType()))
+				fr.refFacts(f, l.resultType(), nil)
+				st = fr.store(st, l, f)
+			}
+		}
+	}
 	st = fr.applyModifies(st, pre, fc, env, args, ptypes)
 	if len(fc.Modifies) > 0 || returnsRefs(sig) {
 		nv := vc.nextVar()
@@ -1031,7 +1059,7 @@ func bindResults(env *Env, fn *ssa.Function, res []string) {
 }
 
 // call-site assertions: "at call NAME[#k]: expr"
-func (fr *Frame) callSiteAsserts(st *State, g string, cname string, after bool, args []string, callee *ssa.Function, pos token.Pos) {
+func (fr *Frame) callSiteAsserts(st *State, g string, cname string, after bool, args []string, callee *ssa.Function, pos token.Pos, sig *types.Signature) {
 	t := fr.top()
 	if t.fc == nil || len(t.fc.Asserts) == 0 {
 		return
@@ -1055,6 +1083,12 @@ func (fr *Frame) callSiteAsserts(st *State, g string, cname string, after bool, 
 				if i < len(args) {
 					env.names["arg"+fmt.Sprint(i)] = TV{term: args[i], typ: p.Type()}
 				}
+			}
+		}
+		if callee == nil && sig != nil {
+			// interface method / function value: arg0.. are the declared parameters (receiver excluded)
+			for i := 0; i < sig.Params().Len() && i < len(args); i++ {
+				env.names["arg"+fmt.Sprint(i)] = TV{term: args[i], typ: sig.Params().At(i).Type()}
 			}
 		}
 		tt := t.evalGoal(a.C, env, "call-site assertion")
@@ -1353,7 +1387,7 @@ func mustParseType(src string) TypeExpr {
 // to a sequential contract: every slice variable the less closure reads is x itself.
 func (fr *Frame) sortSlice(st *State, g string, x ssa.Value, mc *ssa.MakeClosure, pos token.Pos) (*State, []string) {
 	vc := fr.vc
-	vc.trust("assumed contract of sort.Slice: permutes the elements of its slice argument (contents havoc'ed), touches nothing else; sortedness of the result is not assumed")
+	vc.trust("assumed contract of sort.Slice: touches nothing but the elements of its slice argument")
 	xs := fr.val(x)
 	ci := fr.findClosure(mc)
 	fn := mc.Fn.(*ssa.Function)
@@ -1380,8 +1414,70 @@ func (fr *Frame) sortSlice(st *State, g string, x ssa.Value, mc *ssa.MakeClosure
 	}
 	sl := x.Type().Underlying().(*types.Slice)
 	hv := vc.arrHeapVar(sl.Elem())
-	f := vc.freshConst("sorted", fmt.Sprintf("(Array %s %s)", vc.goInt(), vc.sortOf(sl.Elem())))
+	es := vc.sortOf(sl.Elem())
+	oldArr := fmt.Sprintf("(select %s (sref %s))", st.get(hv), xs)
+	f := vc.freshConst("sorted", fmt.Sprintf("(Array %s %s)", vc.goInt(), es))
 	st = fr.setVar(st, hv, fmt.Sprintf("(store %s (sref %s) %s)", st.get(hv), xs, f))
+	if vc.isBV() {
+		return st, nil
+	}
+	// the result is a permutation of the old contents: new[i] == old[perm(i)], perm a bijection
+	// of [0, len) with inverse inv; elements outside the slice keep their values
+	ln := fmt.Sprintf("(slen_ %s)", xs)
+	perm := vc.fresh("perm")
+	inv := vc.fresh("perminv")
+	vc.decl("f:"+perm, fmt.Sprintf("(declare-fun %s (Int) Int)", perm))
+	vc.decl("f:"+inv, fmt.Sprintf("(declare-fun %s (Int) Int)", inv))
+	at := func(arr, i string) string { return fmt.Sprintf("(select %s %s)", arr, vc.absIdx(xs, i)) }
+	vc.assume(implies(g, fmt.Sprintf("(forall ((i Int)) (! (=> (and (<= 0 i) (< i %s)) (and (<= 0 (%s i)) (< (%s i) %s) (= %s %s) (= (%s (%s i)) i))) :pattern (%s) :pattern ((%s i))))",
+		ln, perm, perm, ln, at(f, "i"), at(oldArr, "("+perm+" i)"), inv, perm, at(f, "i"), perm)))
+	vc.assume(implies(g, fmt.Sprintf("(forall ((j Int)) (! (=> (and (<= 0 j) (< j %s)) (and (<= 0 (%s j)) (< (%s j) %s) (= (%s (%s j)) j))) :pattern ((%s j)) :pattern (%s)))",
+		ln, inv, inv, ln, perm, inv, inv, at(oldArr, "j"))))
+	vc.assume(implies(g, fmt.Sprintf("(forall ((k Int)) (! (=> (or (< k (soff %s)) (>= k (+ (soff %s) %s))) (= (select %s k) (select %s k))) :pattern ((select %s k))))", xs, xs, ln, f, oldArr, f)))
+	vc.trust("assumed contract of sort.Slice: the result is a permutation of the argument's elements")
+	// sortedness: available when the less closure is under a contract `ensures result == E` whose
+	// only captured variable is the sorted slice; then E must be a strict weak order (obligations)
+	// and the documented result  forall a < b: !less(b, a)  is assumed
+	fc := vc.eng.contractFor(fn)
+	if fc == nil || len(fn.Params) != 2 || len(fn.FreeVars) != 1 || n != 1 {
+		vc.note("sort.Slice in %s: the less closure has no usable contract, sortedness of the result is not assumed", fr.fn.String())
+		return st, nil
+	}
+	var lessE Expr
+	for _, c := range fc.Ensures {
+		if b, ok := c.E.(EBinary); ok && b.Op == "==" {
+			if id, ok := b.X.(EIdent); ok && (id.Name == "result" || id.Name == "result0") {
+				lessE = b.Y
+			}
+		}
+	}
+	if lessE == nil {
+		vc.note("sort.Slice in %s: the less closure's contract has no clause of the form `result == E`, sortedness is not assumed", fr.fn.String())
+		return st, nil
+	}
+	post := st
+	less := func(a, b string) string {
+		env := &Env{vc: vc, fr: fr, names: map[string]TV{}, st: post, old: post, pkg: fn.Pkg.Pkg, bound: map[string]TV{}}
+		env.names[fn.Params[0].Name()] = TV{term: a, typ: fn.Params[0].Type()}
+		env.names[fn.Params[1].Name()] = TV{term: b, typ: fn.Params[1].Type()}
+		env.names[fn.FreeVars[0].Name()] = TV{term: xs, typ: x.Type()}
+		return env.evalBool(lessE)
+	}
+	inr := func(v string) string { return fmt.Sprintf("(and (<= 0 %s) (< %s %s))", v, v, ln) }
+	mk := func(name, goal, src string) {
+		vc.addObl(&Obligation{Name: fmt.Sprintf("%s#pre@sort.Slice.%s", vc.unit, name), Kind: "pre", Props: fr.top().props(), Guard: g, Goal: goal, Src: src, Pos: vc.eng.pos(pos)})
+	}
+	i, j, k := vc.freshConst("swo_i", "Int"), vc.freshConst("swo_j", "Int"), vc.freshConst("swo_k", "Int")
+	rng := and(inr(i), inr(j), inr(k))
+	mk("less_irreflexive", implies(rng, not(less(i, i))), "the less function is irreflexive on the elements being sorted")
+	mk("less_transitive", implies(and(rng, less(i, j), less(j, k)), less(i, k)), "the less function is transitive")
+	mk("less_incomparability_transitive", implies(and(rng, not(less(i, j)), not(less(j, i)), not(less(j, k)), not(less(k, j))), and(not(less(i, k)), not(less(k, i)))),
+		"incomparability under the less function is transitive (strict weak order)")
+	// assume sortedness with the bound variables as plain index arguments
+	vc.nfresh++
+	qa, qb := fmt.Sprintf("qv!sa_%d", vc.nfresh), fmt.Sprintf("qv!sb_%d", vc.nfresh)
+	vc.assume(implies(g, fmt.Sprintf("(forall ((%s Int) (%s Int)) (! (=> (and (<= 0 %s) (< %s %s) (< %s %s)) (not %s)) :pattern (%s %s)))", qa, qb, qa, qa, qb, qb, ln, less(qb, qa), at(f, qa), at(f, qb))))
+	vc.trust("assumed contract of sort.Slice: for a less function that is a strict weak order (checked) the result satisfies forall a < b: !less(b, a)")
 	return st, nil
 }
 
@@ -1521,4 +1617,27 @@ func (fr *Frame) applyInvokes(st *State, g string, fc *FuncContract, pn string, 
 		return havocAll("modifies clause of " + cfc.Name + " cannot be evaluated at the call site")
 	}
 	return st
+}
+
+// closureWrites: indices of the free variables a closure body may assign: every use of the free
+// variable other than as the address of a load counts as a write.
+func closureWrites(fn *ssa.Function) map[int]bool {
+	out := map[int]bool{}
+	for i, fv := range fn.FreeVars {
+		refs := fv.Referrers()
+		if refs == nil {
+			out[i] = true
+			continue
+		}
+		for _, r := range *refs {
+			if u, ok := r.(*ssa.UnOp); ok && u.Op == token.MUL && u.X == fv {
+				continue
+			}
+			if _, ok := r.(*ssa.DebugRef); ok {
+				continue
+			}
+			out[i] = true
+		}
+	}
+	return out
 }
